@@ -308,6 +308,8 @@ class Interp:
             return t[2], pol
         if self._is_game_call(t, "are_values_known") and len(t[2]) == 1:
             return t[2][0], pol
+        if self._is_game_call(t, "are_values_known") and not t[2] and not t[3]:
+            return ("full-length",), pol          # the mask over ALL ids in ascending order: applies to a collection that is all ids in that order
         return None
 
     # ---- collections
@@ -506,9 +508,14 @@ class Interp:
         if not isinstance(base, Coll):
             self.unrecognised.append(f"mask on {show_coll(base)}")
             return Coll(ALL_CLASSES, restricted=True, why_restricted="mask on complement", unrecognised=True)
+        if isinstance(idx, tuple) and len(idx) == 4 and idx[0] == "bin" and idx[1] == "&":
+            # a conjunction of two masks over the same array selects what applying one after the other selects
+            return self._mask(self._mask(base, base_t, idx[2], c), base_t, idx[3], c)
         km = self._known_mask_of(idx)
         if km is not None:
             target, pol = km
+            if target == ("full-length",) and base.order is None and not base.restricted:
+                target = base_t
             if target == base_t:
                 if base.known is not None and base.known != pol:
                     return replace(base, classes=frozenset())
@@ -521,6 +528,9 @@ class Interp:
                 return replace(base, classes=base.classes & cls)
             return replace(base, classes=cls)
         self.unrecognised.append(f"mask {show(idx)[:100]}")
+        if base.restricted and not base.unrecognised:
+            # already thinned out by something the domain DOES understand (a slice, a size predicate): candidates are missing whatever this mask selects
+            return replace(base, why_restricted=f"{base.why_restricted} + a further mask")
         return replace(base, restricted=True, why_restricted="unrecognised mask", unrecognised=True)
 
     def _rel_mask(self, idx: Term, c: Term | None) -> frozenset | None:
